@@ -27,7 +27,7 @@ CONTRACTS = [
         id='compat.integer::from_bytes[signed]', file=F, qual='<py3>.from_bytes', properties=['C01', 'C09'],
         params=dict(octets=PBytes(), signed=PConst(True)),
         ensures=[('denotes', 'result == X.twos_val(octets)')],
-        external=['denotes'],
+        external=['denotes'], returns=PInt(),
     ),
     Contract(
         id='compat.integer::from_bytes[unsigned]', file=F, qual='<py3>.from_bytes', properties=['C01'],
@@ -36,3 +36,6 @@ CONTRACTS = [
         external=['denotes'],
     ),
 ]
+
+FROM_BYTES_SIGNED = [c for c in CONTRACTS if c.id.endswith('from_bytes[signed]')][0]
+TO_BYTES_SIGNED = [c for c in CONTRACTS if c.id.endswith('to_bytes[signed]')][0]
